@@ -130,6 +130,9 @@ def judge(ctx, res):
     n, tag, cmd, pats, A, rc, so_, se, got, stats, job = res
     entries, pre, answers = job[2], job[7 - 1], job[7]
     viol = []
+    if rc == -999:
+        ctx.count('inconclusive_watchdog')        # the runner's 60 s wall-clock watchdog fired (a loaded machine): no verdict either way
+        return viol
     opts = cmd[1:]
     wdir = None
     m = re.search(r'w=?(.*)$', opts)
